@@ -14,6 +14,7 @@ func profC04() *RevProfile {
 	p.ConfigW = []int{10, 10, 45, 35}
 	p.PSrcFault = 55
 	p.STPct = 60
+	p.CancelPct = 4
 	return p
 }
 
@@ -27,6 +28,7 @@ func profC05() *RevProfile {
 	p.PSrcFault = 45
 	p.DeltaPct = 50
 	p.SoakPct = 15
+	p.CancelPct = 6 // also at exchange boundaries (between two distribution points, between base and delta)
 	return p
 }
 
@@ -46,11 +48,16 @@ func profC06() *RevProfile {
 func profC10() *RevProfile {
 	p := defaultRevProfile("C10")
 	p.LenW = []int{0, 70, 25, 5, 0}
-	p.OCSPCountW = []int{90, 10, 0, 0}
+	p.OCSPCountW = []int{70, 25, 5, 0}
 	p.CRLCountW = []int{0, 75, 20, 5}
 	p.EntryW = []int{85, 15, 0}
 	p.FetcherW = []int{40, 20, 40}
-	p.ConfigW = []int{100, 0, 0, 0}
+	// mostly fault-free (the entry lists are the subject); with network faults
+	// the OCSP phase ends Unknown and the same lists are interpreted on the
+	// fallback path, and a cancellation may land between base and delta
+	p.ConfigW = []int{70, 30, 0, 0}
+	p.PSrcFault = 45
+	p.CancelPct = 5
 	p.CRLRich = true
 	p.DeltaPct = 60
 	p.STPct = 65
@@ -67,6 +74,7 @@ func profC11() *RevProfile {
 	p.PSrcFault = 45
 	p.TimestampPct = 30
 	p.SoakPct = 15
+	p.CancelPct = 8
 	return p
 }
 
@@ -79,6 +87,7 @@ func profC12() *RevProfile {
 	p.Schedules = 4
 	p.LatMax = 400
 	p.PSrcFault = 40
+	p.CancelPct = 8 // completeness ("exactly one result per certificate") also under cancellation
 	return p
 }
 
